@@ -27,7 +27,7 @@ import time
 from . import core
 
 ME = os.path.join(core.VERIF_DIR, "bin", "verif")
-PROPS = ["C09", "C10", "C12", "C17", "C18"]
+PROPS = ["C04", "C09", "C10", "C12", "C17", "C18"]
 
 
 def _run_check(prop, seed, env_extra, scale="0.05", tier="quick", timeout=1800):
